@@ -21,7 +21,10 @@
 EXTENDS RoutingOps
 
 \* ---- the pools
-CVariants == {"plain", "thr", "badfilter_kind", "thr_then_bad", "bad_then_thr", "absent"}
+CVariants == {"plain", "thr", "badfilter_kind", "thr_then_bad", "bad_then_thr", "absent",
+              \* two filters whose ORDER is the behaviour: "pass" (a kind the embedding program registers) accepts every
+              \* record outright, the threshold rejects what is more verbose than warn - the first filter with an opinion decides
+              "pass_then_thr", "thr_then_pass"}
 \* x: [v |-> variant]; "ok" variants build, all others make the appender fail to build
 XOk == {"file", "file_trunc", "file_json", "file_pat", "file_empty_pat", "file_env", "roll_delete", "roll_window", "roll_zero_limit", "roll_time", "console", "absent"}
 XBroken == {"file_unknown_key", "file_path_wrong_type", "file_append_wrong_type", "enc_unknown_key", "enc_unknown_kind",
@@ -51,6 +54,7 @@ Init == /\ phase = "grow"
         /\ doc \in DocSpace
         \* at most one kind of defect per document, so that classes do not mask each other
         /\ (doc.dv # "ok" => (doc.x \in XOk /\ doc.c \in {"plain", "thr"}))
+        /\ (doc.c \in {"pass_then_thr", "thr_then_pass"} => doc.x \in {"file", "absent"})
         /\ (doc.x \in XBroken => doc.c \in {"plain", "thr"})
         \* the optional document-level fields vary on the plainest document only
         /\ ((doc.refresh # "none" \/ doc.root # "full") => (doc.c = "plain" /\ doc.x \in {"file", "absent"}))
@@ -76,7 +80,15 @@ DocRejected(d) == \/ d.dv \in {"doc_unknown_key", "root_unknown_key", "root_leve
 XBuilds(d) == d.x \in XOk /\ d.x # "absent"
 CBuilds(d) == d.c # "absent"
 \* filters that survive on the capture appender: a broken filter is dropped, the others stay
-CFilters(d) == CASE d.c \in {"thr", "thr_then_bad", "bad_then_thr"} -> <<"warn">> [] OTHER -> <<>>
+CFilters(d) == CASE d.c \in {"thr", "thr_then_bad", "bad_then_thr"} -> <<"warn">>
+                 [] d.c = "pass_then_thr" -> <<"pass", "warn">>
+                 [] d.c = "thr_then_pass" -> <<"warn", "pass">>
+                 [] OTHER -> <<>>
+\* the chain is asked in the order of the document; the first answer that is not "neutral" stands
+RECURSIVE Rejects(_, _)
+Rejects(fs, L) == IF fs = <<>> THEN FALSE
+                  ELSE IF Head(fs) = "pass" THEN FALSE
+                  ELSE IF L > 2 THEN TRUE ELSE Rejects(Tail(fs), L)
 Existing(d) == (IF CBuilds(d) THEN {"c"} ELSE {}) \cup (IF XBuilds(d) THEN {"x"} ELSE {})
 ValidLoggerName(n) == n # <<"a", ":", "b">>
 KeptLoggers(d) == SelectSeq(d.loggers, LAMBDA l : ValidLoggerName(l.name))
@@ -97,7 +109,7 @@ Class(d) == IF DocRejected(d) THEN "rejected" ELSE IF HasDefect(d) THEN "partial
 \* deliveries to the capture appender for a probe (target, level)
 Probe(d, t, L) == LET cfg == Surviving(d) IN
                   IF ~Enabled(cfg, t, L) THEN 0
-                  ELSE IF CFilters(d) # <<>> /\ L > 2 THEN 0            \* threshold warn rejects more verbose records
+                  ELSE IF Rejects(CFilters(d), L) THEN 0                \* threshold warn rejects more verbose records
                   ELSE Cardinality({i \in 1..Len(Attach(cfg, EffName(cfg, t))) : Attach(cfg, EffName(cfg, t))[i] = "c"})
 \* dropping a broken component never changes the routing of the others: the capture appender's table does not
 \* depend on which broken variant x has
